@@ -114,6 +114,22 @@ pub fn replay(v: &Value) -> Outcome {
             nonsentences.push(w.clone());
         }
     }
+    // one parser object for all inputs (clean tables only): a failed run must not leave state behind
+    if do_gen && !has_resolved {
+        let inputs: Vec<String> = words.iter().map(|w| w.join(" ")).collect();
+        match std::panic::catch_unwind(std::panic::AssertUnwindSafe(|| dynrt::run_reuse(&tables, &inputs, 5000))) {
+            Ok(oks) => {
+                for (w, ok) in words.iter().zip(oks) {
+                    o.evals += 1;
+                    if ok != lang.contains(w) {
+                        o.mismatch("reused-parser-verdict", json!({"input": w, "sentence": lang.contains(w)}), json!({"ok": ok, "note": "same parser object used for all inputs in order"}));
+                        break;
+                    }
+                }
+            }
+            Err(e) => o.mismatch("panic", json!({"input": "reused parser"}), json!({"err": {"kind": "PANIC", "msg": crate::panic_msg(e)}})),
+        }
+    }
     let h0 = hash_str(&v["g"].to_string());
     // TV for tables without resolved conflicts (C03); resolved tables are covered by the GEN leg (C04)
     if sample == 0 || h0 % every != 0 || has_resolved {
